@@ -28,8 +28,8 @@ def layout_of(spec):
 def applicable(prog, dataset, layout):
     if prog.needs_range and dataset != "range":
         return False
-    if prog.needs_known and not layout.known:
-        return False
+    if prog.needs_known and (not layout.known or (layout.kind == "cuts" and any(0 in part for part in layout.spec))):
+        return False  # (an empty piece leaves the divisions of a cut layout unknown)
     return True
 
 
